@@ -37,13 +37,15 @@ QUOTE_TEMPLATES = ["\\'", "?\\'", "\\'?", "?\\'?", "?\\'\\'"]
 QUICK_TABLES = ["single", "overlap", "multibyte", "brackets", "nested", "twobyte", "digits", "longest3", "ignore", "leading-blank", "quote"]
 
 # string templates: '?' = free symbolic character, 'h' = symbolic hex digit, others literal
-TEMPLATES_QUICK = ["", "?", "??", "???", "[0xhh]", "?[0xhh]", "[0xhh]?", "[0xh]?", "[0xhhh]", "[0x]?", "??[0xhh]"]
+# 'L' = the first character of the table's first entry (a literal run in front of an escape: the escape then starts
+# at an offset larger than its own length)
+TEMPLATES_QUICK = ["", "?", "??", "???", "[0xhh]", "?[0xhh]", "[0xhh]?", "[0xh]?", "[0xhhh]", "[0x]?", "??[0xhh]", "LLLLLLL[0xhh]?", "LL[0xhh]LLLLLL[0xhh]"]
 TEMPLATES_THOROUGH = TEMPLATES_QUICK + ["????", "?[0xhh]?", "[0xhh][0xhh]", "??[0xhh]?", "[[0xhh]", "[0xhh]]"]
 
 META = {
     "bounds": {
-        "quick": "11 tables x 11 string templates (up to 3 free symbolic characters over the table alphabet + '[' ']' '0' 'x' + two unknown characters; escapes with symbolic hex digits); codec API and .text directive (top level, inherited scope, scope with its own table); literals with escaped quotes (first / last / middle / doubled) over a table with an entry for the quote",
-        "thorough": "16 tables x 17 templates (up to 4 free characters, two escapes)",
+        "quick": "11 tables x 13 string templates (up to 3 free symbolic characters over the table alphabet + '[' ']' '0' 'x' + two unknown characters; escapes with symbolic hex digits); codec API and .text directive (top level, inherited scope, scope with its own table); literals with escaped quotes (first / last / middle / doubled) over a table with an entry for the quote",
+        "thorough": "16 tables x 19 templates (up to 4 free characters, two escapes)",
     },
     "outside": ["escapes with 1 or >= 3 hex digits (statement says NN): any behaviour accepted", "characters above 255", "strings longer than the templates", "backslash (other than escaping a quote) / newline inside the .text literal; tables with an entry for the backslash"],
     "oracle": "oracles/table.py: independent .tbl parser and longest-match tokeniser, executed relative to the implementation's path condition (vf/oraclex.py)",
@@ -93,6 +95,10 @@ def preflight(tier):
     return {"inconclusive": [], "violations": [], "info": {"regex_shim_selftest": "ok"}}
 
 
+def _first_char(table_name):
+    return ord(next(iter(parse_table(TABLES[table_name])))[0])
+
+
 def build_chars(spec, cx):
     alpha = alphabet(TABLES[spec["table"]])
     chars = []
@@ -101,6 +107,8 @@ def build_chars(spec, cx):
             chars.append(cx.char(f"c{i}", alpha))
         elif c == "h":
             chars.append(cx.char(f"c{i}", HEX))
+        elif c == "L":
+            chars.append(_first_char(spec["table"]))
         else:
             chars.append(ord(c))
     return chars
@@ -159,7 +167,7 @@ def _expected_bytes(tokens):
 
 
 def check(spec, cx, out):
-    chars = [cx.t(f"c{i}") if c in "?h" else ord(c) for i, c in enumerate(spec["tpl"])]
+    chars = [cx.t(f"c{i}") if c in "?h" else _first_char(spec["table"]) if c == "L" else ord(c) for i, c in enumerate(spec["tpl"])]
     table = parse_table(TABLES[spec["table"]])
     res = []
     if spec["fam"] == "codec":
